@@ -579,8 +579,13 @@ func (tree *Rtree) nearestNeighbors(k int, p geom.Point, n *node,
 		}
 	} else {
 		branches, branchDists := sortEntries(p, n.entries)
-		branches = pruneEntries(p, branches, branchDists)
-		for _, e := range branches {
+		for i, e := range branches {
+			// MINMAXDIST pruning only guarantees one object per branch, so it
+			// is not valid for k > 1; a branch can be skipped only when it is
+			// farther away than the current k-th best candidate.
+			if k > 0 && math.Sqrt(branchDists[i]) > dists[k-1] {
+				break
+			}
 			nearest, dists = tree.nearestNeighbors(k, p, e.child, dists, nearest)
 		}
 	}
